@@ -152,7 +152,10 @@ def gen_cases(ctx):
                 yield dict(status='default', path='/api', media=mi, body=bname, endpoint='', dct=dct)
     for order in ('ab', 'ba'):
         for sub in (False, True):
-            yield dict(part='two', integration='flask', order=order, sub=sub)
+            for integration in ('flask', 'aiohttp', 'werkzeug'):
+                if integration == 'werkzeug' and sub:
+                    continue
+                yield dict(part='two', integration=integration, order=order, sub=sub)
     for integration in ('werkzeug', 'flask'):
         for kinds in (('call', 'call'), ('call', 'notif')):
             K = 8
@@ -379,6 +382,46 @@ def run_two_extensions(case, rec):
                 ok = (doc.get('result') == want) if want else (doc.get('error', {}).get('code') == -32601)
                 if not ok:
                     rec.violation('C18:flask:one extension object answers with another extension object\'s dispatcher', dict(case, app=tag, method=method),
+                                  expected=want or -32601, observed=doc)
+                obs.append(ok)
+    else:
+        from mc.harness.http import Integration
+        A, B = Integration(kind, '/a'), Integration(kind, '/b')
+        is_async = kind == 'aiohttp'
+
+        def const(t):
+            if is_async:
+                async def f():
+                    return t
+            else:
+                def f():
+                    return t
+            return f
+        targets = []          # (integration, url, tag)
+        for integ, tag in ((A, 'A'), (B, 'B')):
+            integ.dispatcher.add(const(tag), name='who')
+            integ.dispatcher.add(const(tag), name='only_' + tag.lower())
+            targets.append((integ, '/' + tag.lower(), tag))
+            if case.get('sub') and kind == 'aiohttp':
+                sub = integ.rpc.add_endpoint('/x' if tag == 'A' else '/y')
+                sub.add(const(tag + 'sub'), name='who')
+                sub.add(const(tag + 'sub'), name='only_' + tag.lower() + 'sub')
+                targets.append((integ, '/%s/%s' % (tag.lower(), 'x' if tag == 'A' else 'y'), tag + 'sub'))
+        order = (A, B) if case['order'] == 'ab' else (B, A)
+        for integ in order:
+            integ.ready()
+        for integ, url, tag in targets:
+            other = {'A': 'b', 'B': 'a', 'Asub': 'bsub', 'Bsub': 'asub'}[tag]
+            for method, want in (('who', tag), ('only_' + tag.lower(), tag), ('only_' + other, None), ('only_' + tag.lower()[0] + ('' if tag.endswith('sub') else 'sub'), None)):
+                r = integ.post(json.dumps({'jsonrpc': '2.0', 'id': 1, 'method': method}).encode(), 'application/json', path=url)
+                rec.transitions += 1
+                try:
+                    doc = json.loads(r.body.decode('utf-8'))
+                except Exception:   # noqa
+                    doc = {'reply': repr(r)[:200]}
+                ok = (doc.get('result') == want) if want else (doc.get('error', {}).get('code') == -32601)
+                if not ok:
+                    rec.violation('C18:%s:one application object answers with another object\'s / endpoint\'s dispatcher' % kind, dict(case, url=url, method=method),
                                   expected=want or -32601, observed=doc)
                 obs.append(ok)
     rec.states += 1
